@@ -773,6 +773,7 @@ func runC10(c *Ctx) {
 	}
 	c10SiteDifferential(c, nsite)
 	c10ConvertDifferential(c, nconv)
+	c10Site2Differentials(c)
 	c10RunProvocations(c, boost)
 	// ---- the ORDER of fork ids (static ragged nested map calls, run-time expansion) ----
 	c10ForkOrder(c, rt)
